@@ -8,11 +8,14 @@
    (3) a structural traversal of the loaded tree (what the derived Drop / Clone / Eq / Hash of
        saphyr::Yaml and the emitter's emit_node -> emit_sequence / emit_mapping -> emit_node do) with the
        same kind of counter, and the depth of a tree;
-   (4) the witness family: token streams and event sentences of every nesting depth.
+   (4) the witness family: token streams and event sentences of every nesting depth;
+   (5) nesting of a token stream, the scanner's flow level along it, the two flow families;
+   (6) the oracle that vlib/p_c11.py runs (extracted) on the implementation's tokens and events.
    Executable definitions only; the lemmas are in Proofs/DepthProofs.v. *)
 From Coq Require Import List NArith Bool.
 Import ListNotations.
 Require Import Parser Resolver Loader.
+Require Consts.
 Local Open Scope nat_scope.
 
 (* ---------- (1) nesting depth of events ---------- *)
@@ -163,18 +166,53 @@ Definition seq_events (d : nat) : list event :=
 Fixpoint nest_seq (n : nat) (leaf : yaml) : yaml :=
   match n with O => leaf | S k => YSeq [nest_seq k leaf] end.
 
-(* ---------- (5) flow-limit bypass family: "[ ? ] , " * (d-1) ++ "[ ? ] " ++ "]" * d ---------- *)
-(* what the scanner's flow_level does along a token stream: +1 at a flow collection start it emits from
-   fetch_flow_collection_start, -1 at a flow collection end (current level, maximum) *)
+(* ---------- (5) token nesting, the scanner's flow level along a token stream, witness families ---------- *)
+(* A FlowMappingStart token the scanner emits for a '{' character spans that character (fetch_flow_collection_start:
+   span = mark before the indicator .. mark after it and the blanks behind it); the SYNTHETIC FlowMappingStart that
+   fetch_value pushes or inserts for an implicit "key: value" pair inside a flow sequence has an EMPTY span.  That is
+   how a token stream tells them apart (checked against the real scanner's tokens by vlib/p_c11.py). *)
+Definition span_is_empty (sp : span) : bool := N.eqb (m_index (sp_start sp)) (m_index (sp_end sp)).
+Definition real_flow_open (t : token) : bool :=
+  match snd t with
+  | TFlowSequenceStart => true
+  | TFlowMappingStart => negb (span_is_empty (fst t))
+  | _ => false
+  end.
+Definition flow_close (t : token) : bool :=
+  match snd t with TFlowSequenceEnd | TFlowMappingEnd => true | _ => false end.
+
+(* what the scanner's flow_level does along the token stream it emits: +1 at a '[' or '{' token (the only tokens
+   pushed by fetch_flow_collection_start, after increase_flow_level), at most -1 at a flow collection end
+   (decrease_flow_level saturates at 0); (current level, maximum) *)
 Definition tok_flow_step (cm : nat * nat) (t : token) : nat * nat :=
   let '(c, m) := cm in
-  match snd t with
-  | TFlowSequenceStart | TFlowMappingStart => (S c, Nat.max m (S c))
-  | TFlowSequenceEnd | TFlowMappingEnd => (Nat.pred c, m)
-  | _ => (c, m)
-  end.
-Definition tok_flow_max (toks : list token) : nat := snd (fold_left tok_flow_step toks (0, 0)).
+  if real_flow_open t then (S c, Nat.max m (S c))
+  else if flow_close t then (Nat.pred c, m)
+  else (c, m).
+Definition tok_flow_run (toks : list token) (cm : nat * nat) : nat * nat := fold_left tok_flow_step toks cm.
+Definition tok_flow_max (toks : list token) : nat := snd (tok_flow_run toks (0, 0)).
 
+(* nesting of the token stream itself: EVERY collection start token opens a level (block or flow, synthetic or not),
+   every collection end token closes at most one *)
+Definition tok_open (t : tok) : bool :=
+  match t with TBlockSequenceStart | TBlockMappingStart | TFlowSequenceStart | TFlowMappingStart => true | _ => false end.
+Definition tok_close (t : tok) : bool :=
+  match t with TBlockEnd | TFlowSequenceEnd | TFlowMappingEnd => true | _ => false end.
+Definition tok_nest_next (c : nat) (t : tok) : nat :=
+  if tok_open t then S c else if tok_close t then Nat.pred c else c.
+Definition tok_nest_step (cm : nat * nat) (t : token) : nat * nat :=
+  let c' := tok_nest_next (fst cm) (snd t) in (c', Nat.max (snd cm) c').
+Definition tok_nest_run (toks : list token) (cm : nat * nat) : nat * nat := fold_left tok_nest_step toks cm.
+Definition tok_nest_cur (toks : list token) : nat := fst (tok_nest_run toks (0, 0)).
+Definition tok_nest_max (toks : list token) : nat := snd (tok_nest_run toks (0, 0)).
+
+(* collection start tokens that are NOT counted by the scanner's flow level: block collections and the synthetic
+   FlowMappingStart of implicit pairs *)
+Definition other_open (t : token) : bool := tok_open (snd t) && negb (real_flow_open t).
+Definition other_openers (toks : list token) : nat := length (filter other_open toks).
+
+(* -- family A (regression; was the first flow-limit bypass, repaired by c5ad60c):
+      "[ ? ] , " * (d-1) ++ "[ ? ] " ++ "]" * d  -- *)
 Definition qflow_group : list token := [tk TFlowSequenceStart; tk TKey; tk TFlowSequenceEnd].
 Fixpoint qflow_groups (n : nat) : list token :=
   match n with
@@ -187,3 +225,25 @@ Definition qflow_tokens (d : nat) : list token :=
 Definition qflow_text (d : nat) : list N :=
   flat_map (fun _ => [91; 32; 63; 32; 93; 32; 44; 32]%N) (repeat tt (Nat.pred d))
     ++ [91; 32; 63; 32; 93; 32]%N ++ repeat 93%N d.
+
+(* -- family B (the remaining flow-limit bypass): "[" ++ " :" * d ++ " " ++ "}" * d ++ "]"
+      fetch_value pushes one synthetic (empty-span) FlowMappingStart per bare ':' inside the flow sequence; the first
+      '}' lowers the scanner's flow level to 0; the parser sees d properly closed nested mappings -- *)
+Definition cflow_pair : list token := [tk TFlowMappingStart; tk TValue].
+(* StreamStart [ (FlowMappingStart Value)^d FlowMappingEnd^d ] StreamEnd *)
+Definition cflow_tokens (d : nat) : list token :=
+  tk TStreamStart :: tk TFlowSequenceStart :: flat_map (fun _ => cflow_pair) (repeat tt d)
+    ++ repeat (tk TFlowMappingEnd) d ++ [tk TFlowSequenceEnd; tk TStreamEnd].
+Definition cflow_text (d : nat) : list N :=
+  91%N :: flat_map (fun _ => [32; 58]%N) (repeat tt d) ++ 32%N :: repeat 125%N d ++ [93%N].
+
+(* ---------- (6) the oracle run on the IMPLEMENTATION's tokens and events (extracted; vlib/p_c11.py) ---------- *)
+(* (theorem (h): the flow level of the token stream is within the limit,
+    theorem (g): the events nest at most twice as deep as the tokens,
+    theorem (i): ... at most twice as deep as the limit + the starts the flow level does not count) *)
+Definition c11_oracle (toks : list token) (evs : list event) : bool * bool * bool :=
+  (Nat.leb (tok_flow_max toks) (N.to_nat Consts.FLOW_LEVEL_MAX),
+   Nat.leb (max_nesting evs) (2 * tok_nest_max toks),
+   Nat.leb (max_nesting evs) (2 * (N.to_nat Consts.FLOW_LEVEL_MAX + other_openers toks))).
+Definition c11_measures (toks : list token) (evs : list event) : N * N * N * N :=
+  (N.of_nat (tok_flow_max toks), N.of_nat (tok_nest_max toks), N.of_nat (other_openers toks), N.of_nat (max_nesting evs)).
